@@ -34,6 +34,14 @@ CAUGHT = {
  "C13-2": ("C13", "rendered_time_differs_from_strftime", ""),
  "C14-1": ("C14", "file_exceeds_size_limit active_file=1", ""),
  "C14-2": ("C14", "foreign_file_touched", ""),
+ "C04-1": ("C04", "crash:Aborted (quill's size / length asserts), crash:Segmentation_fault (also C08: crash:Aborted)", "missed by C04 at first (caught by C08 only); caught after C04 plans also ran on dropping queues"),
+ "C04-2": ("C04", "message_differs_from_call_site_formatting typed_site=102", "missed at first; caught after the char call site produced non-printable values"),
+ "C07-1": ("C07", "completed_statement_missing_after_exit, statement_missing_after_stop", ""),
+ "C07-2": ("C07", "handler_notice_missing, statement_of_signalled_thread_missing, wrong_exit_status", "missed at first; caught after a second delivery of the same signal to another thread was added to C07 programs (and pause() interposed)"),
+ "C11-1": ("C11", "steady_state_log_call_allocated typed_site=144/145/146", "missed at first; caught after call sites with more than twelve string values in one statement were added"),
+ "C11-2": ("C11", "steady_state_log_call_allocated typed_site=130", ""),
+ "C15-1": ("C15", "statements_separated_without_a_rotation_point", "missed at first; caught after the C15 oracle demanded that a size rotation be justified by the bytes in the file"),
+ "C15-2": ("C15", "statements_separated_without_a_rotation_point (daily / hourly / minutely)", ""),
 }
 
 src_of = lambda sid: "/tmp/wt/%s/_seeded/%s" % (sid.split('-')[0], sid.split('-')[1])
